@@ -14,15 +14,16 @@ Init == HInit(Slots, {"L"}) /\ n = 0 /\ last = <<"init", 0, 0>>
 Step == /\ n < MaxOps /\ n' = n + 1
         /\ \/ \E v \in Slots, p \in {"1", "x"} : SetScalar(v, "String", p) /\ last' = <<"set", v, v>>
            \/ \E v \in Slots : FromList(v, "L") /\ last' = <<"fromlist", v, v>>
-           \/ \E v \in Slots, i \in 0 .. 2, e \in Elems : SetByIndex(v, i, e, "nul") /\ last' = <<"setbyindex", v, v>>
-           \/ \E v \in Slots : SetLength(v, 2, "nul") /\ last' = <<"setlength", v, v>>
+           \/ \E v \in Slots, i \in 0 .. 2, e \in Elems : SetByIndex(v, i, e) /\ last' = <<"setbyindex", v, v>>
+           \/ \E v \in Slots : SetLength(v, 2) /\ last' = <<"setlength", v, v>>
            \/ \E v, w \in Slots : v # w /\ CopyTo(w, v) /\ last' = <<"copy", w, v>>
            \/ \E v \in Slots : ClearV(v) /\ last' = <<"clear", v, v>>
+           \/ \E v \in Slots, i \in 0 .. 2 : MutElem(v, i) /\ last' = <<"mutelem", 0, 0>>
            \/ \E s \in {<<>>, <<"e1">>, <<"e1", "e2">>} : ListSet("L", s) /\ last' = <<"listset", 0, 0>>
            \/ \E i \in 0 .. 1, e \in Elems : ListPut("L", i, e) /\ last' = <<"listput", 0, 0>>
-Spec == Init /\ [][Step]_<<vs, ls, n, last>>
+Spec == Init /\ [][Step]_<<vs, ls, pads, mut, n, last>>
 \* an operation changes at most its target slot; list operations change no slot
-Independence == [][\A s \in Slots : (last'[2] # s) => vs'[s] = vs[s]]_<<vs, ls, n, last>>
+Independence == [][\A s \in Slots : (last'[2] # s) => vs'[s] = vs[s]]_<<vs, ls, pads, mut, n, last>>
 CloneEquals == last[1] = "copy" => EqualsExpect(last[2], last[3]) = "yes"
 Symmetric == \A a, b \in Slots : EqualsExpect(a, b) = EqualsExpect(b, a)
 =============================================================================
